@@ -362,6 +362,8 @@ func (w *tlsWorld) dial(srv *tlsServer, cred string) (*grpc.ClientConn, error) {
 		cfg.Certificates = []tls.Certificate{pair(resources.SignerTest03Crt, resources.SignerTest03Key)}
 	case "self-signed-peer-name":
 		cfg.Certificates = []tls.Certificate{mkLeaf("signer-test02", nil, nil, false)}
+	case "host-trust-store-authority-peer-name":
+		cfg.Certificates = []tls.Certificate{mkLeaf("signer-test02", w.sysCA, w.sysCAKey, false)}
 	case "other-authority-peer-name":
 		cfg.Certificates = []tls.Certificate{mkLeaf("signer-test02", w.otherCA, w.otherCAKey, false)}
 	case "valid-client-test01-followed-by-public-certificate-of-peer", "valid-unpermitted-client-followed-by-public-certificate-of-peer":
@@ -686,7 +688,9 @@ func runPeerEdge(t *testing.T, rc *RunCtx) {
 		"issued-subject-client-test01-alt-name-signer-test02", "issued-subject-client-test03-alt-names-signer-test02-and-own",
 		// a certificate of the configured authority without a subject name, from the address under which the peer table
 		// lists a peer (peers may be listed by address): an address is not an authenticated name
-		"issued-empty-subject-alt-name-client-test01"}
+		"issued-empty-subject-alt-name-client-test01",
+		// a peer's name certified by an authority the host trusts for other purposes, not by the configured one
+		"host-trust-store-authority-peer-name"}
 	msgs := []string{"prepare", "contribute", "execute", "commit", "abort"}
 	base, _ := strconv.ParseUint(rc.Param("_seed_base", "0"), 10, 64)
 	idx := int(rc.Seed - base)
